@@ -20,7 +20,7 @@ REQUIRED = {"roundtrip": {"quick": 30, "thorough": 150}, "mode_location": {"quic
 ASSUMPTIONS = ["oblique plane waves are not promised by coef_extraction (tensor-product signals are)", "float64 session except the float32 round trips"]
 AMBIENT = True            # thorough tier: the repository's own test-suite runs under this property's general monitor (rv/ambient.py)
 REQUIRED_AMBIENT = {'ambient_fft_roundtrip': 1000}
-TIMEOUT = {"quick": 900, "thorough": 3000}
+TIMEOUT = {"quick": 2400, "thorough": 7200}
 EPS = np.finfo(float).eps
 
 
